@@ -7,6 +7,11 @@
   association lists).  `none` in the model = the C code would dereference NULL.
   `cmp` is any comparison satisfying `Std.TransCmp` (antisymmetric, transitive — what C09 establishes for Int and String);
   `Key.cmp` is the one the op files use (instances in Lemmas/RBCheck.lean).
+  Keys and values are arbitrary types `α`, `β` whose bytes are given by `Packed` (8-byte words) with `LawfulPacked`
+  (the bytes of an object read back as the object); a Tree carries `ksize` / `vsize`, and the one place where Tree.c
+  moves raw bytes — the predecessor relocation of `Tree_Rem` — is modelled as that block move (`relocate`).
+  Histories are well typed (`WellTyped`): `new` and `set` are given keys / values of the sizes of the tree's key / value
+  types (in C, `cast` raises otherwise), where a tree's types are fixed by `new` and taken over by `assign` / `copy`.
 -/
 import CelloProofs.Lemmas.RBStore
 import CelloProofs.Lemmas.RBHeight
@@ -19,31 +24,57 @@ variable {α β : Type}
 
 /-- **C03 (T1), refinement.** For every comparison that is a lawful order and every history of
     new / set / rem / get / mem / len / resize / assign / copy / iter / riter / del over any number of trees
-    (self-assignment excluded, see `C03_self_assign_refuted`), starting from nothing:
+    (self-assignment `assign(t, t)` included: since the fix a3140e4 `Tree_Assign` returns at once when `self is obj`; the
+    behaviour before the fix is `C03_self_assign_old_refuted`), starting from nothing:
     * every operation of the model is defined (the C code never dereferences NULL),
     * the observations (values, membership, lengths, KeyError / FormatError, iteration sequences) are exactly those of
       the specification, a store of strictly sorted association lists — in particular KeyError is raised exactly for
       absent keys and leaves the map unchanged, forward iteration yields the sorted sequence and backward iteration its
       reverse, both reaching Terminal,
-    * afterwards every tree holds exactly the bindings of its specification list, and
-    * every tree is a valid red-black tree whose `nitems` is its number of bindings.
+    * afterwards every tree holds exactly the bindings of its specification list — whole keys and whole values, of any
+      width: `α` and `β` are arbitrary types with a byte representation, and the value a key maps to after the
+      predecessor relocation of `Tree_Rem` is what the moved block decodes to, and
+    * every tree is a valid red-black tree whose `nitems` is its number of bindings and whose entries all have the
+      sizes of its key and value types.
     Since this holds for every history, it holds after every prefix: at every intermediate step. -/
-theorem C03_refines_ordered_map (cmp : α → α → Ordering) [TransCmp cmp] (ops : List (Op α β))
-    (hwf : ∀ op ∈ ops, op.wf) :
+theorem C03_refines_ordered_map [Packed α] [Packed β] [LawfulPacked α] [LawfulPacked β]
+    (cmp : α → α → Ordering) [TransCmp cmp] (ops : List (Op α β))
+    (hty : WellTyped [] ops) :
     ∃ st os, run cmp [] ops = some (st, os) ∧
       os = (Spec.run cmp [] ops).2 ∧
       absStore st = (Spec.run cmp [] ops).1 ∧
       AllValid cmp st := by
-  obtain ⟨st, os, h1, h2, h3⟩ := run_refines (cmp := cmp) ops [] AllValid.nil hwf
+  obtain ⟨st, os, h1, h2, h3⟩ := run_refines (cmp := cmp) ops [] AllValid.nil hty
   have h2' : Spec.run cmp [] ops = (absStore st, os) := h2
   exact ⟨st, os, h1, by rw [h2'], by rw [h2'], h3⟩
 
 /-- **One step, from any valid state** (the inductive step of the theorem above, usable from any reachable state). -/
-theorem C03_step_refines (cmp : α → α → Ordering) [TransCmp cmp] (st : Store (Tree α β)) (op : Op α β)
-    (hv : AllValid cmp st) (hwf : op.wf) :
+theorem C03_step_refines [Packed α] [Packed β] [LawfulPacked α] [LawfulPacked β]
+    (cmp : α → α → Ordering) [TransCmp cmp] (st : Store (Tree α β)) (op : Op α β)
+    (hv : AllValid cmp st) (hty : op.typed (sizeStore st)) :
     ∃ st' o, step cmp st op = some (st', o) ∧ Spec.step cmp (absStore st) op = (absStore st', o) ∧
-      AllValid cmp st' :=
-  step_refines st op hv hwf
+      AllValid cmp st' ∧ tyStep (sizeStore st) op = sizeStore st' :=
+  step_refines st op hv hty
+
+/-- **The memcpy of `Tree_Rem` carries the whole entry.** For every header width, key width and value width: if the
+    predecessor's key and value have the sizes of the Tree's key and value types, then after
+    `memcpy(node + 3*sizeof(var), pred + 3*sizeof(var), sizeof(Header) + ksize + sizeof(Header) + vsize)` the node holds
+    exactly the predecessor's key and the predecessor's complete value, whatever it held before. -/
+theorem C03_relocation_moves_whole_entry [Packed α] [Packed β] [LawfulPacked α] [LawfulPacked β]
+    (y : Lay) (dst src : α × β) (h : FitsLay y src) :
+    relocate y dst src = some src :=
+  relocate_fits y dst src h
+
+/-- **…and no shorter block does**: a move of `n` words that ends inside the value (`Tree_Val` offset ≤ n ≤ block
+    length) leaves at `Tree_Val(node)` the first `n − valOff` words of the predecessor's value followed by the remaining
+    words of the value that was there — so `relocate`, and with it the refinement theorem, depends on the width of the
+    block the code moves (a value wider than the key is cut when `ksize` is used for `vsize`). -/
+theorem C03_relocation_width_matters [Packed α] [Packed β]
+    (y : Lay) (dst src : α × β) (hd : FitsLay y dst) (hs : FitsLay y src)
+    (n : Nat) (h1 : y.valOff ≤ n) (h2 : n ≤ y.entryLen) :
+    valAt y (memcpyW n (entryWords y dst) (entryWords y src)) =
+      (Packed.words src.2).take (n - y.valOff) ++ (Packed.words dst.2).drop (n - y.valOff) :=
+  valAt_short y dst src hd hs n h1 h2
 
 /-- **The specification is an ordered finite map**: lists stay strictly sorted; lookup after insertion / removal is what
     a map gives; `len` counts the bindings. (So "refines the sorted association list" means "behaves as an ordered map".) -/
@@ -58,7 +89,8 @@ theorem C03_spec_is_ordered_map (cmp : α → α → Ordering) [TransCmp cmp] (l
    Spec.length_set k v l hl, Spec.length_rem k l⟩
 
 /-- **KeyError exactly on absent keys, with the tree unchanged**; `get`/`mem`/`len` agree with the map. -/
-theorem C03_keyerror_iff_absent (cmp : α → α → Ordering) [TransCmp cmp] (m : Tree α β) (hv : Valid cmp m) (k : α) :
+theorem C03_keyerror_iff_absent [Packed α] [Packed β] [LawfulPacked α] [LawfulPacked β]
+    (cmp : α → α → Ordering) [TransCmp cmp] (m : Tree α β) (hv : Valid cmp m) (k : α) :
     (m.get cmp k = .raised .KeyError ↔ Spec.get cmp k m.abs = none) ∧
     (∀ v, m.get cmp k = .ok v ↔ Spec.get cmp k m.abs = some v) ∧
     (m.mem cmp k = (Spec.get cmp k m.abs).isSome) ∧
@@ -69,12 +101,12 @@ theorem C03_keyerror_iff_absent (cmp : α → α → Ordering) [TransCmp cmp] (m
   · rw [get_eq m k hv]; cases Spec.get cmp k m.abs <;> simp [lookupOutcome]
   · intro v; rw [get_eq m k hv]; cases Spec.get cmp k m.abs <;> simp [lookupOutcome]
   · intro hn
-    obtain ⟨m', o, e, _, h⟩ := rem_valid m k hv
+    obtain ⟨m', o, e, _, _, h⟩ := rem_valid m k hv
     rcases h with ⟨_, rfl, rfl⟩ | ⟨h1, _, _⟩
     · exact e
     · rw [hn] at h1; cases h1
   · intro hs
-    obtain ⟨m', o, e, _, h⟩ := rem_valid m k hv
+    obtain ⟨m', o, e, _, _, h⟩ := rem_valid m k hv
     rcases h with ⟨h1, _, _⟩ | ⟨_, rfl, h3⟩
     · rw [h1] at hs; cases hs
     · exact ⟨m', e, h3⟩
@@ -82,7 +114,8 @@ theorem C03_keyerror_iff_absent (cmp : α → α → Ordering) [TransCmp cmp] (m
 /-- **C03 (T1), iteration.** On a valid tree the parent-link walk `Tree_Iter_Init`/`Tree_Iter_Next` visits exactly the
     bindings of the tree, each key once, in strictly monotone (descending) key order, and reaches Terminal;
     `Tree_Iter_Last`/`Tree_Iter_Prev` visits the exact reverse. -/
-theorem C03_iteration (cmp : α → α → Ordering) [TransCmp cmp] (m : Tree α β) (hv : Valid cmp m) :
+theorem C03_iteration [Packed α] [Packed β]
+    (cmp : α → α → Ordering) [TransCmp cmp] (m : Tree α β) (hv : Valid cmp m) :
     m.iterFwd = some (m.abs, true) ∧
     m.iterBwd = some (m.abs.reverse, true) ∧
     m.abs.Pairwise (fun a b => cmp a.1 b.1 = .gt) ∧
@@ -97,29 +130,36 @@ theorem C03_iteration (cmp : α → α → Ordering) [TransCmp cmp] (m : Tree α
 
 /-- **C03 (T2), balance is preserved by insertion**: from a valid tree `Tree_Set` never dereferences NULL and returns a
     valid red-black tree holding the updated map. -/
-theorem C03_balanced_set (cmp : α → α → Ordering) [TransCmp cmp] (m : Tree α β) (hv : Valid cmp m) (k : α) (v : β) :
-    ∃ m', m.set cmp k v = some m' ∧ Valid cmp m' ∧ m'.abs = Spec.set cmp k v m.abs :=
-  set_valid m k v hv
+theorem C03_balanced_set [Packed α] [Packed β]
+    (cmp : α → α → Ordering) [TransCmp cmp] (m : Tree α β) (hv : Valid cmp m) (k : α) (v : β)
+    (hkv : Fits m.sizes (k, v)) :
+    ∃ m', m.set cmp k v = some m' ∧ Valid cmp m' ∧ m'.abs = Spec.set cmp k v m.abs := by
+  obtain ⟨m', e, v', a, _⟩ := set_valid m k v hv hkv
+  exact ⟨m', e, v', a⟩
 
 /-- **C03 (T2), balance is preserved by removal** (all cases of `Tree_Rem_Fix`, predecessor copy, root removal). -/
-theorem C03_balanced_rem (cmp : α → α → Ordering) [TransCmp cmp] (m : Tree α β) (hv : Valid cmp m) (k : α) :
+theorem C03_balanced_rem [Packed α] [Packed β] [LawfulPacked α] [LawfulPacked β]
+    (cmp : α → α → Ordering) [TransCmp cmp] (m : Tree α β) (hv : Valid cmp m) (k : α) :
     ∃ m' o, m.rem cmp k = some (m', o) ∧ Valid cmp m' := by
   obtain ⟨m', o, e, v, _⟩ := rem_valid m k hv
   exact ⟨m', o, e, v⟩
 
 /-- **C03 (T2), height bound**: a valid tree with `n` bindings has height at most `2·log2(n+1)`
     (also in the logarithm-free form `2^height ≤ (n+1)²`). -/
-theorem C03_height_bound (cmp : α → α → Ordering) (m : Tree α β) (hv : Valid cmp m) :
+theorem C03_height_bound [Packed α] [Packed β]
+    (cmp : α → α → Ordering) (m : Tree α β) (hv : Valid cmp m) :
     height m.root ≤ 2 * Nat.log2 (m.nitems + 1) ∧ 2 ^ height m.root ≤ (m.nitems + 1) ^ 2 := by
   rw [← hv.count]
   exact ⟨height_le_log m.root hv.shape, pow_height_le_sq m.root hv.shape⟩
 
 /-- **C03 (T2), along every history**: every tree of every reachable store is a valid red-black tree within the height
     bound. -/
-theorem C03_balanced (cmp : α → α → Ordering) [TransCmp cmp] (ops : List (Op α β)) (hwf : ∀ op ∈ ops, op.wf)
+theorem C03_balanced [Packed α] [Packed β] [LawfulPacked α] [LawfulPacked β]
+    (cmp : α → α → Ordering) [TransCmp cmp] (ops : List (Op α β))
+    (hty : WellTyped [] ops)
     (st : Store (Tree α β)) (os : List (Obs α β)) (hrun : run cmp [] ops = some (st, os)) :
     ∀ e ∈ st, Valid cmp e.2 ∧ height e.2.root ≤ 2 * Nat.log2 (e.2.nitems + 1) := by
-  obtain ⟨st', os', h1, _, _, h4⟩ := C03_refines_ordered_map cmp ops hwf
+  obtain ⟨st', os', h1, _, _, h4⟩ := C03_refines_ordered_map cmp ops hty
   rw [h1] at hrun
   cases hrun
   exact fun e he => ⟨h4 e he, (C03_height_bound cmp e.2 (h4 e he)).1⟩
@@ -134,7 +174,8 @@ def searchSteps (cmp : α → α → Ordering) : T α β → α → Nat
     | .gt => searchSteps cmp r k + 1
 
 /-- **Lookups stay logarithmic**: the descent compares at most `2·log2(n+1)` keys. -/
-theorem C03_logarithmic_search (cmp : α → α → Ordering) (m : Tree α β) (hv : Valid cmp m) (k : α) :
+theorem C03_logarithmic_search [Packed α] [Packed β]
+    (cmp : α → α → Ordering) (m : Tree α β) (hv : Valid cmp m) (k : α) :
     searchSteps cmp m.root k ≤ 2 * Nat.log2 (m.nitems + 1) := by
   have : ∀ t : T α β, searchSteps cmp t k ≤ height t := by
     intro t
@@ -155,56 +196,69 @@ theorem C03_remFix_dead_branch (f : Frame α β) (rest : Path α β) (up up' : O
 
 /-- **The `ok=` flag printed by the driver on every state is `Valid`** (so the correspondence run also checks the
     invariant of the theorems on every state the implementation reaches). -/
-theorem C03_executable_check (cmp : α → α → Ordering) [TransCmp cmp] (m : Tree α β) :
+theorem C03_executable_check [Packed α] [Packed β]
+    (cmp : α → α → Ordering) [TransCmp cmp] (m : Tree α β) :
     m.validB cmp = true ↔ Valid cmp m :=
   validB_iff m
 
 /-- **For the op files**: the statement for the comparison the driver uses (Int_Cmp on Ints, strcmp on Strings). -/
-theorem C03_op_files (ops : List (Op Key Int)) (hwf : ∀ op ∈ ops, op.wf) :
+theorem C03_op_files (ops : List (Op Key Val)) (hty : WellTyped [] ops) :
     ∃ st os, run Key.cmp [] ops = some (st, os) ∧ os = (Spec.run Key.cmp [] ops).2 ∧
       absStore st = (Spec.run Key.cmp [] ops).1 ∧ AllValid Key.cmp st :=
-  C03_refines_ordered_map Key.cmp ops hwf
+  C03_refines_ordered_map Key.cmp ops hty
 
 /-! ### non-vacuity: concrete states meet the hypotheses -/
 
-/-- a concrete tree with both colours, built by the model, is `Valid`, and a history with updates, removals of a node with
-    two children, KeyError, assign and copy is well formed and runs -/
+/-- a concrete tree with both colours, Int keys and 24-byte values, built by the model, is `Valid`; a history with
+    updates, removals of nodes with two children (predecessor relocation of 24-byte values past 8-byte keys, and of 24-byte
+    keys past 8-byte values), KeyError, assign (also of a tree to itself) and copy is well typed and runs -/
 example :
-    let m : Tree Key Int := ⟨.node .B (.node .B .nil (.i 7) 70 .nil) (.i 5) 50
-                               (.node .B .nil (.i 3) 30 (.node .R .nil (.i 1) 10 .nil)), 4⟩
-    Valid Key.cmp m ∧ Tree.new Key.cmp [(.i 5, 50), (.i 3, 30), (.i 7, 70), (.i 1, 10)] = some m := by
+    let m : Tree Key Val := ⟨.node .B (.node .B .nil (.i 7) [70, 71, 72] .nil) (.i 5) [50, 51, 52]
+                               (.node .B .nil (.i 3) [30, 31, 32] (.node .R .nil (.i 1) [10, 11, 12] .nil)), 4, 8, 24⟩
+    Valid Key.cmp m ∧
+      Tree.new Key.cmp 8 24 [(.i 5, [50, 51, 52]), (.i 3, [30, 31, 32]), (.i 7, [70, 71, 72]), (.i 1, [10, 11, 12])]
+        = some m := by
   refine ⟨(validB_iff _).mp (by decide), by decide⟩
 
 example :
-    let ops : List (Op Key Int) :=
-      [.new 0 [(.i 5, 50), (.i 3, 30), (.i 7, 70), (.i 1, 10)], .set 0 (.i 5) 55, .rem 0 (.i 5), .rem 0 (.i 9),
-       .new 1 [], .assign 1 0, .copy 2 1, .rem 2 (.i 7), .iter 0, .riter 2, .len 1, .get 2 (.i 7)]
-    (∀ op ∈ ops, op.wf) ∧
+    let ops : List (Op Key Val) :=
+      [.new 0 8 24 [(.i 5, [50, 51, 52]), (.i 3, [30, 31, 32]), (.i 7, [70, 71, 72]), (.i 1, [10, 11, 12])],
+       .set 0 (.i 5) [55, 56, 57], .rem 0 (.i 5), .rem 0 (.i 9), .get 0 (.i 3),
+       .new 1 8 8 [], .assign 1 0, .copy 2 1, .rem 2 (.i 7), .iter 0, .riter 2, .len 1, .get 2 (.i 7),
+       .new 3 24 8 [(.w 1 2 [3], [1]), (.w 1 2 [4], [2]), (.w 0 9 [9], [3])], .rem 3 (.w 1 2 [3]), .assign 3 3, .iter 3]
+    WellTyped [] ops ∧
     (run Key.cmp [] ops).map (·.2) = some
-      [.done, .done, .done, .err .KeyError, .done, .done, .done, .done,
-       .items [(.i 7, 70), (.i 3, 30), (.i 1, 10)] true, .items [(.i 1, 10), (.i 3, 30)] true, .nat 3,
-       .err .KeyError] := by
-  refine ⟨by simp [Op.wf], by decide⟩
+      [.done, .done, .done, .err .KeyError, .val [30, 31, 32], .done, .done, .done, .done,
+       .items [(.i 7, [70, 71, 72]), (.i 3, [30, 31, 32]), (.i 1, [10, 11, 12])] true,
+       .items [(.i 1, [10, 11, 12]), (.i 3, [30, 31, 32])] true, .nat 3,
+       .err .KeyError, .done, .done, .done, .items [(.w 1 2 [4], [2]), (.w 0 9 [9], [3])] true] := by
+  refine ⟨wellTypedB_sound _ _ (by decide), by decide⟩
 
-/-! ### known finding: self-assignment -/
+/-- the relocation on concrete bytes: Int key, 24-byte value, 24-byte header. The block Tree.c moves carries the whole
+    value; a block computed with `ksize` in place of `vsize` (8 bytes of value) leaves the predecessor's first word
+    followed by the removed entry's second and third. -/
+example :
+    let y : Lay := ⟨3, 1, 3⟩
+    relocate y ((Key.i 14, ([14, 14007, -14000042] : Val))) ((Key.i 15, ([15, 15007, -15000042] : Val)))
+        = some (Key.i 15, [15, 15007, -15000042]) ∧
+      intsOf (valAt y (memcpyW (y.hdr + y.ks + y.hdr + y.ks)
+          (entryWords y (Key.i 14, ([14, 14007, -14000042] : Val)))
+          (entryWords y (Key.i 15, ([15, 15007, -15000042] : Val))))) = some [15, 14007, -14000042] := by
+  decide
 
-/-- the full statement of the refinement theorem without the exclusion of `assign(t, t)` -/
-def C03_refines_ordered_map_with_self_assign_statement : Prop :=
-  ∀ (ops : List (Op Key Int)), ∃ st os, run Key.cmp [] ops = some (st, os) ∧ os = (Spec.run Key.cmp [] ops).2
+/-! ### fixed defect: self-assignment (a3140e4) -/
 
-/-- **`assign(t, t)` empties the tree**: `Tree_Assign` clears the destination before it iterates over the source, so
-    with `self == obj` nothing is left; an ordered map assigned to itself is unchanged. The model (which mirrors the
-    code and agrees with it on corpus/kf_c03_self_assign.ops) violates the unrestricted statement. -/
-theorem C03_self_assign_refuted : ¬ C03_refines_ordered_map_with_self_assign_statement := by
-  intro h
-  obtain ⟨st, os, h1, h2⟩ := h [.new 0 [(.i 1, 10), (.i 2, 20)], .assign 0 0, .len 0]
-  have e1 : (run Key.cmp [] [Op.new 0 [(Key.i 1, (10 : Int)), (.i 2, 20)], .assign 0 0, .len 0]).map (·.2)
-      = some [.done, .done, .nat 0] := by decide
-  have e2 : (Spec.run Key.cmp [] [Op.new 0 [(Key.i 1, (10 : Int)), (.i 2, 20)], .assign 0 0, .len 0]).2
-      = [.done, .done, .nat 2] := by decide
-  rw [h1] at e1
-  simp only [Option.map_some, Option.some.injEq] at e1
-  rw [e1, e2] at h2
-  simp at h2
+/-- **Before the fix, `assign(t, t)` emptied the tree**: `Tree_Assign` cleared the destination before it iterated over
+    the source, so with `self == obj` nothing was left, while an ordered map assigned to itself is unchanged. The old
+    variant of the model function (`Tree.assignSelfOld`, which mirrors the code before a3140e4 and agreed with it on
+    corpus/tree_fixed_self_assign.ops) loses the bindings of a valid tree; the current one (`Tree.assignSelf`, the
+    `if (self is obj) { return; }` of the code that exists now) keeps the tree as it is — which is what lets
+    `C03_refines_ordered_map` hold for histories with self-assignment. -/
+theorem C03_self_assign_old_refuted :
+    ∃ m : Tree Key Val, Valid Key.cmp m ∧ m.abs = [(.i 2, [20]), (.i 1, [10])] ∧
+      (Tree.assignSelfOld Key.cmp m).map (fun r => (r.1.abs, r.1.len)) = some ([], 0) ∧
+      (Tree.assignSelf Key.cmp m).map (·.1) = some m := by
+  refine ⟨⟨.node .B .nil (.i 2) [20] (.node .R .nil (.i 1) [10] .nil), 2, 8, 8⟩, (validB_iff _).mp (by decide), by decide,
+    by decide, rfl⟩
 
 end Cello.RB
